@@ -466,36 +466,8 @@ def copy_continues(ctx, db):
     ctx.ob(rid, f, f['key'], bad is None, 'the copy continues from the last value the source consumed' + ('' if not bad else ' -- ' + bad[0]), desc=bad[0][:110] if bad else None, trace=fmt_trace(bad[1]) if bad else None)
 
 
-def _split_select(p):
-    """'(C ? A : B)' -> (C, A, B) or None (balanced parentheses)"""
-    if not (p.startswith('(') and p.endswith(')')):
-        return None
-    body = p[1:-1]; depth = 0; q = c = None
-    for i, ch in enumerate(body):
-        if ch == '(':
-            depth += 1
-        elif ch == ')':
-            depth -= 1
-        elif depth == 0 and body[i:i + 3] == ' ? ' and q is None:
-            q = i
-        elif depth == 0 and body[i:i + 3] == ' : ' and q is not None and c is None:
-            c = i
-    if q is None or c is None:
-        return None
-    return body[:q], body[q + 3:c], body[c + 3:]
-
-
-def _resolve_select(p, before):
-    """value of a conditional expression on this path: the arm chosen by the branch on its condition"""
-    for _ in range(3):
-        sp = _split_select(p or '')
-        if not sp:
-            return p
-        br = next((it for it in reversed(before) if it.k == 'branch' and (it.get('opath') == sp[0] or it.get('path') == sp[0])), None)
-        if br is None:
-            return p
-        p = sp[1] if br.val else sp[2]
-    return p
+_resolve_select = resolve_select
+_split_select = split_select
 
 
 def failed_publish_consistent(ctx, db):
